@@ -46,6 +46,7 @@ pub struct Stats {
     pub counters: BTreeMap<String, u64>,
     pub violations: Vec<Violation>,
     pub violations_total: u64,
+    pub violations_by_sig: BTreeMap<String, u64>,
     pub samples: Vec<J>,
     pub harness_errors: Vec<String>,
     pub per_cfg: BTreeMap<String, u64>,
@@ -71,9 +72,10 @@ impl Stats {
         }
         self.violations_total += o.violations_total;
         for v in o.violations {
-            if self.violations.len() < 40 {
-                self.violations.push(v);
-            }
+            self.keep_violation(v);
+        }
+        for (k, n) in o.violations_by_sig {
+            *self.violations_by_sig.entry(k).or_insert(0) += n;
         }
         for s in o.samples {
             if self.samples.len() < 6 {
@@ -81,6 +83,15 @@ impl Stats {
             }
         }
         self.harness_errors.extend(o.harness_errors);
+    }
+    /// keep at most 3 witnesses per signature (and at most 80 signatures), so that a flood
+    /// of one (e.g. known) signature can never crowd out a different one
+    pub fn keep_violation(&mut self, v: Violation) {
+        let same = self.violations.iter().filter(|x| x.sig == v.sig).count();
+        let sigs: BTreeSet<&str> = self.violations.iter().map(|x| x.sig.as_str()).collect();
+        if same < 3 && (same > 0 || sigs.len() < 80) {
+            self.violations.push(v);
+        }
     }
     pub fn count(&mut self, k: &str) {
         *self.counters.entry(k.to_string()).or_insert(0) += 1;
@@ -175,17 +186,16 @@ impl<'a> Ctx<'a> {
         }
         self.violated = true;
         self.st.violations_total += 1;
-        if self.st.violations.len() < 40 {
-            let v = Violation {
-                prop: self.prop,
-                sig: sig.to_string(),
-                detail,
-                cfg: self.cfg.name.clone(),
-                case_seed: self.case_seed,
-                case: self.case_json(),
-            };
-            self.st.violations.push(v);
-        }
+        *self.st.violations_by_sig.entry(sig.to_string()).or_insert(0) += 1;
+        let v = Violation {
+            prop: self.prop,
+            sig: sig.to_string(),
+            detail,
+            cfg: self.cfg.name.clone(),
+            case_seed: self.case_seed,
+            case: self.case_json(),
+        };
+        self.st.keep_violation(v);
     }
     /// a panic inside a monitored call where the oracle expected a value
     pub fn panic_violation(&mut self, what: &str, p: &PanicInfo) {
